@@ -6,7 +6,7 @@ Import ListNotations.
 From Coq Require Import ZArith.
 From CXV Require Import Gen.TokTy Gen.ParserTables Parse.Balanced Gen.Blocks Parse.BlocksSM.
 From CXV Require Import Base.Regex Base.Cost Gen.LexRules Lex.PlyLoop Gen.StreamTables Stream.TokBuf Fmt.TokFmt PP.Filters Misc.ReprModel Gen.Schema Parse.Fold Parse.Declarator Parse.DeclSpec Parse.EnumList Parse.BaseClause Parse.NsHeader Parse.Specs Parse.VarStmt Parse.FnTail Parse.Init Parse.Members Parse.MethodTail Parse.Template Parse.PQName Parse.Using Parse.EnumDecl Parse.ClassEnum Parse.TemplateArg Parse.CtorDtor Parse.ParamsX Parse.DeclStmt Parse.TemplateStmt Parse.MemberStmt Parse.OpName.
-From CXV Require Parse.DispatchLang Gen.Dispatch Parse.FinishClass Parse.ConvOp Parse.OperatorMember Parse.OperatorFn Parse.MethodImpl.
+From CXV Require Parse.DispatchLang Gen.Dispatch Parse.FinishClass Parse.ConvOp Parse.OperatorMember Parse.OperatorFn Parse.MethodImpl Parse.TemplateInst.
 From CXV Require Parse.Requires.
 Open Scope N_scope.
 
@@ -917,8 +917,24 @@ Definition run_method_impl (args : list N) : list N :=
   | DErr e => [1; e]
   end.
 
+(* 117: an explicit instantiation behind `template` / `extern template`.  Output: 0, rest length, root flag, name count, name
+   ids, argument count, arguments as for 101 *)
+Definition run_template_inst (args : list N) : list N :=
+  let toks := dec_tks args in
+  match TemplateInst.inst_stmt (4 * length toks + 8) toks with
+  | DOk (ti, rest) =>
+      0 :: nlen rest :: bN (TemplateInst.ti_root ti) :: nlen (TemplateInst.ti_names ti) :: TemplateInst.ti_names ti ++
+        nlen (TemplateInst.ti_args ti) ::
+        flat_map (fun a => match a with
+                           | AType t p => 1 :: bN p :: enc_ty t
+                           | AVal v p => 2 :: bN p :: nlen v :: enc_tks v
+                           end) (TemplateInst.ti_args ti)
+  | DErr e => [1; e]
+  end.
+
 Definition run_case (cmd : N) (args : list N) : list N :=
   match cmd, args with
+  | 117, _ => run_template_inst args
   | 116, _ => run_method_impl args
   | 115, _ => run_op_fn args
   | 114, _ => run_op_member args
